@@ -1,7 +1,27 @@
 import GoawkModel.Basic
-/-! Line-protocol handler for property C20: one request line (already split into words, without the leading `c20`) → one answer line. -/
-namespace GoawkModel.Drv.C20
+import GoawkModel.C20
+import GoawkModel.C20Quote
+import GoawkModel.Drv.C04
+/-! Line-protocol handler for property C20 (request already split into words, without the leading `c20`):
 
-def handle (_args : List String) : String := "unimplemented"
+  `show <pc> tok*`  → `ok tok*` : parse the tokens with the C04 model parser (the last token is the terminator and must be
+                      the only one left), print the tree with `showE`;  `err …` when the model rejects / does not cover it
+  `quote <hex> <cp>*`, `unquote <hex>`, `fmtre <hex>`, `lexre <hex>` → see `GoawkModel.C20Quote.handleQuote` -/
+namespace GoawkModel.Drv.C20
+open GoawkModel GoawkModel.C04 GoawkModel.C20
+
+def handle (args : List String) : String :=
+  match args with
+  | "show" :: pcw :: ws =>
+    match ws.mapM Drv.C04.wordTok with
+    | none => "bad-token"
+    | some ts =>
+      match parseExpr (pcw == "1") ts with
+      | .error x => Drv.C04.errWord x
+      | .ok (e, rest) => if rest.length == 1 then "ok " ++ Drv.C04.showToks (showE e) else "err rest"
+  | _ =>
+    match C20Quote.handleQuote args with
+    | some s => s
+    | none => "bad-request"
 
 end GoawkModel.Drv.C20
